@@ -36,7 +36,9 @@ ASSUMPTIONS = [
     "unsatisfiable by any implementation and are counted, not judged",
     "a pointer into an array that the old document lacks may be materialised as an object with the index as key; paths are "
     "compared as RFC 6901 pointer strings, so this is counted (kind_mismatch) but not a violation",
-    "argument mutation is counted, not judged",
+    "argument mutation is counted; a rewritten `old` argument is judged by its consequence for the callers, who build the "
+    "uploaded patch from the very object they passed in (make_patch(old, merged) must still turn the device document into "
+    "the merged one)",
     "the filter clause is read as: every leaf of the result is a leaf of d AND lies inside a part selected by the filters",
 ]
 BUDGET = {"quick": 600, "thorough": 3600}
@@ -349,6 +351,24 @@ def _fragment_raw(old, f, acl):
         counters["argument_mutated"] = 1
     if r is a_old:
         counters["result_is_argument"] = 1
+    if not R.same_value(a_old, old):
+        # the callers (RunGeneratorResult.new_json_fragment_files -> api._patch_worker / PCDeployerJob.parse_result) keep the
+        # very object they passed as `old` and build the patch from it: if the merge wrote into it, is the patch they
+        # build still the one that turns the device's document into the merged one?
+        try:
+            pt = jt.make_patch(a_old, r)
+            applied = json.loads(jt.apply_patch(json.dumps(old).encode(), json.dumps(pt).encode()))
+            stale = not R.same_value(applied, R.clone(r))
+        except Exception as e:  # noqa
+            stale, pt, applied = True, None, "%s: %s" % (type(e).__name__, e)
+        evals += 2
+        if stale:
+            viol.append(("fragment:old-document-rewritten", {"effect": "the callers' patch no longer reproduces the target"},
+                         "apply_json_fragment(%s, %s, %s) rewrote its `old` argument to %s; make_patch(old as the caller "
+                         "holds it, result) = %s, applied to the device document gives %s instead of %s" % (
+                json.dumps(old), json.dumps(f), json.dumps(acl), json.dumps(a_old), json.dumps(pt), json.dumps(applied),
+                json.dumps(R.clone(r)))))
+            return "F:old-rewritten", nontrivial, viol, evals, counters
     r = R.clone(r)
     status, problems, info = R.judge_fragment(old, f, acl, r, sel)
     if info["kind_mismatch"]:
